@@ -350,7 +350,14 @@ def _run_quad(case):
         axes_sets = [(0,), (1, 2), (0, 1, 2), (2, 0)]
         for k, ax in enumerate(axes_sets):
             group[f"ca{k}"] = fdtdx.ClosedSurfacePoyntingFluxDetector(name=f"ca{k}", plot=False, axes=ax, **common)
-        placed = {k: DS.place(d, b, sc.config) for k, d in group.items()}
+        placed = {}
+        for k, d in group.items():
+            try:
+                placed[k] = DS.place(d, b, sc.config)
+            except Exception as e:  # placement of a documented option must not raise
+                opt = "keep_all_components" if getattr(d, "keep_all_components", False) else type(d).__name__
+                fail(f"placement-raises:{type(d).__name__}:{opt}:{type(e).__name__}", dict(box=b, grid=case["grid"], error=repr(e)[:300]))
+        have_all = all(f"p{a}+1{r}" in placed and f"p{a}-1{r}" in placed for a in range(3) for r in (0, 1))
         # six face detectors: one-cell slabs at the min / max end of every axis, outward normal
         faces = {}
         for a in range(3):
@@ -425,10 +432,12 @@ def _run_quad(case):
         for a in range(3):
             area = O.face_areas(info["widths"], b, a)
             sp = P(a, "+", False, False)  # (B, bx,by,bz)
-            spa = P(a, "+", True, False)  # (B, 3, bx,by,bz)
             chk(f"poynting:reduced!=area-weighted-sum:axis{a}", P(a, "+", False, True)[:, 0], np.einsum("bxyz,xyz->b", sp, area))
             chk(f"poynting:minus!=-plus:axis{a}", P(a, "-", False, False), -sp)
             chk(f"poynting:minus!=-plus:reduced:axis{a}", P(a, "-", False, True), -P(a, "+", False, True))
+            if not have_all:
+                continue
+            spa = P(a, "+", True, False)  # (B, 3, bx,by,bz)
             chk(f"poynting:minus!=-plus:all-components:axis{a}", P(a, "-", True, False), -spa)
             chk(f"poynting:single!=component-of-all:axis{a}", sp, spa[:, a])
             areas3 = np.stack([O.face_areas(info["widths"], b, i) for i in range(3)])
@@ -457,7 +466,7 @@ def _run_quad(case):
         if not ex and not cplx:
             pos = {i: k for k, i in enumerate(sup)}
             x = dense[0]
-            for nm, arr in (("energy", Es), ("poynting", P(0, "+", True, False)), ("closed", out["co"]["poynting_flux"])):
+            for nm, arr in (("energy", Es), ("poynting", P(0, "+", True, False) if have_all else P(0, "+", False, False)), ("closed", out["co"]["poynting_flux"])):
                 q1 = arr[1 : n + 1]
                 qp = arr[n + 1 : n + 1 + len(pairs)]
                 rec = np.zeros_like(arr[0])
@@ -466,14 +475,15 @@ def _run_quad(case):
                 for k, (i, j) in enumerate(pairs):
                     rec = rec + x[i] * x[j] * (qp[k] - q1[i] - q1[j])
                 got = arr[X.shape[0] - len(dense)]
-                r = _rel(got, rec)
+                # scale: the size of the table entries (the dense value itself may cancel to ~0)
+                r = float(np.max(np.abs(got - rec))) / max(1e-300, float(np.max(np.abs(arr[1 : n + 1 + len(pairs)]))))
                 worst = max(worst, r)
                 if r > TOL:
                     fail(f"{nm}:not-a-quadratic-form-of-the-box-fields:{tag}", dict(desc, rel=r))
             hom = _rel(Es[-1], 4.0 * Es[X.shape[0] - len(dense)])
             if hom > TOL:
                 fail(f"energy:not-homogeneous-of-degree-2:{tag}", dict(desc, rel=hom))
-        if ncell > 1 and np.max(np.abs(Es)) > 0 and np.max(np.abs(P(0, "+", True, False))) > 0:
+        if ncell > 1 and np.max(np.abs(Es)) > 0 and np.max(np.abs(P(0, "+", False, False))) > 0:
             nontriv += 1
     traces = 0
     if case.get("conf") and not fails:
